@@ -26,12 +26,16 @@
 (***************************************************************************)
 EXTENDS CropExtend, TLC, Json
 CONSTANTS NU, NS,     \* first NU units / NS starts of the lists
-          MaxN,       \* axis lengths 1..MaxN
+          MaxN,       \* axis lengths 1..MaxN for adjust_dim_width
+          CropN,      \* axis lengths 1..CropN for crop_dim
           Sub,        \* interval ends on multiples of Sub quarter steps (1: quarters, 2: halves)
           Ext,        \* extension up to Ext quarter steps beyond either end
           ExtNs,      \* axis lengths used for extend_dim
+          ChainNU, ChainNs,   \* units / axis lengths for chains of two operations
           Algo,
-          ExtFilter   \* extend_dim drops generated coordinates that are not strictly inside (start, stop)  [repaired] / keeps them [as found]
+          ExtFilter,  \* extend_dim drops generated coordinates that are not strictly inside (start, stop)  [repaired] / keeps them [as found]
+          RangeFrom   \* get_dim_range: "index" = min / max of the coordinates [the code]
+                      \*                "attrs" = the start/stop attributes when present [history: seeded defect r2sb1]
 VARIABLES c, pc, r
 vars == <<c, pc, r>>
 
@@ -42,7 +46,7 @@ IvUnits == {u \in Units : u[2] <= 1000}       \* crop/extend use eps = 1e-5: the
 Starts == {StartList[k] : k \in 1..NS}
 OnSub(x) == x % Sub = 0
 
-CropCases == {x \in [kind : {"crop"}, s : IvUnits, a4 : Starts, n : 1..MaxN, ms : 0..(4 * MaxN), me : 0..(4 * MaxN),
+CropCases == {x \in [kind : {"crop"}, s : IvUnits, a4 : Starts, n : 1..CropN, ms : 0..(4 * CropN), me : 0..(4 * CropN),
                      lc : BOOLEAN, rc : BOOLEAN] :
                 /\ x.ms <= x.me /\ x.me <= 4 * (x.n - 1) /\ OnSub(x.ms) /\ OnSub(x.me)}
 ExtendCases == {x \in [kind : {"extend"}, s : IvUnits, a4 : Starts, n : ExtNs, src : {"attr", "est"},
@@ -58,11 +62,57 @@ WidthCases == {x \in [kind : {"width"}, fn : {"adjust", "direct"}, s : Units, a4
                 /\ (x.src = "est" => x.n >= 2)
                 /\ (x.fn = "direct" => x.w # x.n /\ x.a4 = 0)}             \* crop_dim_width / extend_dim_width called directly
 
-R0 == [set |-> {}, nl |-> 0, nr |-> 0, off |-> 0, len |-> 0, lrel |-> "none", rrel |-> "none"]
-Init == /\ pc = "start" /\ r = R0
+(* ---- histories: two operations on the same data (uniform operation records, see CropExtend!ApplyOp) ---- *)
+OpE(ms, me, lc, rc) == [op |-> "extend", ms |-> ms, me |-> me, lc |-> lc, rc |-> rc, w |-> 0, pos |-> ""]
+OpC(ms, me, lc, rc) == [op |-> "crop",   ms |-> ms, me |-> me, lc |-> lc, rc |-> rc, w |-> 0, pos |-> ""]
+OpW(w, pos)         == [op |-> "width",  ms |-> 0, me |-> 0, lc |-> TRUE, rc |-> TRUE, w |-> w, pos |-> pos]
+LastQ(n) == 4 * (n - 1)
+\* extend, then extend further out (the lower end moves by dl, the upper by dr); the second interval contains the first result
+ChainEE(n) == {<<OpE(ms1, LastQ(n) + de1, lc1, TRUE), OpE(ms1 - dl, LastQ(n) + de1 + dr, lc2, TRUE)>> :
+                 ms1 \in {-4, -2, 0}, lc1 \in BOOLEAN, de1 \in {0, 2}, dl \in {0, 2, 4, 6}, lc2 \in BOOLEAN, dr \in {0, 4}}
+ChainEEOK(o) == (~o[1].lc => o[1].ms < 0) /\ (o[2].ms = o[1].ms => o[2].lc)
+\* extend, then crop inside what the extension certainly produced; crop ends are original coordinates or off-lattice
+ChainEC(n) == {<<OpE(ms1, LastQ(n) + de1, TRUE, TRUE), OpC(ms2, me2, lc2, rc2)>> :
+                 ms1 \in {-6, -4}, de1 \in {2, 4}, ms2 \in {-2, 0, 2}, me2 \in {LastQ(n) - 2, LastQ(n), LastQ(n) + 2},
+                 lc2 \in BOOLEAN, rc2 \in BOOLEAN}
+ChainECOK(o) == /\ o[2].ms <= o[2].me /\ o[2].ms >= 4 * ExtLo(o[1].ms, TRUE) /\ o[2].me <= 4 * ExtHi(o[1].me, TRUE)
+                /\ (o[2].lc = o[2].rc)
+\* crop (non-empty), then extend over an interval that contains what was kept: the cropped samples come back as fill
+ChainCE(n) == {<<OpC(ms1, me1, lc1, ~lc1), OpE(ms1 - dl, me1 + dr, c2, c2)>> :
+                 ms1 \in {x \in 0..LastQ(n) : x % 2 = 0}, me1 \in {x \in 0..LastQ(n) : x % 2 = 0},
+                 lc1 \in BOOLEAN, dl \in {0, 4}, dr \in {0, 4}, c2 \in BOOLEAN}
+ChainCEOK(n, o) == /\ o[1].ms <= o[1].me /\ CropIdx(n, o[1].ms, o[1].me, o[1].lc, o[1].rc) # {}
+                   /\ (o[2].ms = o[1].ms => (o[2].lc \/ ~o[1].lc \/ o[1].ms % 4 # 0))
+                   /\ (o[2].me = o[1].me => (o[2].rc \/ ~o[1].rc \/ o[1].me % 4 # 0))
+\* extend, then adjust_dim_width
+ChainEW(n) == {<<OpE(ms1, LastQ(n) + de1, lc1, TRUE), OpW(w, pos)>> :
+                 ms1 \in {-4, -2, 0}, lc1 \in BOOLEAN, de1 \in {0, 2}, w \in {1, n + 1, n + 2, n + 4}, pos \in {"start", "center", "end"}}
+Chains(n) == {o \in ChainEE(n) : ChainEEOK(o)} \cup {o \in ChainEC(n) : ChainECOK(o)}
+             \cup {o \in ChainCE(n) : ChainCEOK(n, o)} \cup {o \in ChainEW(n) : ~o[1].lc => o[1].ms < 0}
+ChainUnits == {UnitList[k] : k \in 1..ChainNU}
+ChainCases == UNION {{[kind |-> "chain", s |-> s, a4 |-> a4, n |-> n, src |-> "attr", fill |-> IF o[2].lc THEN 0 ELSE -7, ops |-> o] :
+                        o \in Chains(n)} : s \in ChainUnits, a4 \in Starts, n \in ChainNs}
+
+R0 == [step |-> 1, lo |-> 0, hi |-> -1, bad |-> FALSE, ha |-> FALSE, at0 |-> 0, at1 |-> 0,
+       set |-> {}, nl |-> 0, nr |-> 0, off |-> 0, len |-> 0, lrel |-> "none", rrel |-> "none"]
+Init == /\ pc = "start"
         /\ \/ c \in CropCases
            \/ \E x \in ExtendCases : c = MkExtend(x)
            \/ c \in WidthCases
+           \/ c \in ChainCases
+        /\ r = [R0 EXCEPT !.hi = c.n - 1]
+
+\* the operation being executed, and the axis it is applied to (lattice indices r.lo .. r.hi of the ORIGINAL lattice)
+NOps == IF c.kind = "chain" THEN Len(c.ops) ELSE 1
+O == CASE c.kind = "chain"  -> c.ops[r.step]
+       [] c.kind = "crop"   -> OpC(c.ms, c.me, c.lc, c.rc)
+       [] c.kind = "extend" -> OpE(c.ms, c.me, c.lc, c.rc)
+       [] c.kind = "width"  -> OpW(c.w, c.pos)
+CurLen == r.hi - r.lo + 1
+\* get_dim_range(arr, dim).  extend_dim records start (eps-shifted) and stop as attributes of the coordinate of its
+\* result; the code never reads them back.  Reading them back (RangeFrom = "attrs") is the seeded defect.
+CurStart8 == IF RangeFrom = "attrs" /\ r.ha THEN r.at0 ELSE 8 * r.lo
+CurStop8  == IF RangeFrom = "attrs" /\ r.ha THEN r.at1 ELSE 8 * r.hi
 
 (* number of elements of np.arange over a span of num8/8 steps *)
 ArangeLens(num8, s, samebase) ==
@@ -78,54 +128,74 @@ IsFuzz(num8, s, k) == num8 >= 0 /\ num8 % 8 = 0 /\ Stress(s) /\ k = num8 \div 8 
 Rels(num8, s, k)   == IF IsFuzz(num8, s, k) THEN (IF ExtFilter THEN {"in"} ELSE {"in", "out"}) ELSE {"none"}
 
 (* -------------------------------------------------------------- crop: Impl *)
-\* arr.sel(slice(start (+eps), stop (-eps))): label slice, both bounds inclusive
-Slice == /\ c.kind = "crop" /\ pc = "start"
-         /\ LET lo8 == 2 * c.ms + (IF c.lc THEN 0 ELSE 1)
-                hi8 == 2 * c.me - (IF c.rc THEN 0 ELSE 1)
-            IN  r' = [r EXCEPT !.set = {j \in 0..(c.n - 1) : lo8 <= 8 * j /\ 8 * j <= hi8}]
-         /\ pc' = "done" /\ UNCHANGED c
+\* range check against get_dim_range, then arr.sel(slice(start (+eps), stop (-eps))): label slice, both bounds inclusive
+Slice == /\ pc = "start" /\ O.op = "crop"
+         /\ LET lo8 == 2 * O.ms + (IF O.lc THEN 0 ELSE 1)
+                hi8 == 2 * O.me - (IF O.rc THEN 0 ELSE 1)
+                X   == {j \in r.lo..r.hi : lo8 <= 8 * j /\ 8 * j <= hi8}
+            IN  IF 2 * O.ms < CurStart8 \/ 2 * O.me > CurStop8
+                THEN r' = [r EXCEPT !.bad = TRUE]                                          \* ValueError: outside the axis range
+                ELSE r' = [r EXCEPT !.set = X, !.lo = IF X = {} THEN r.lo ELSE SetMin(X), !.hi = IF X = {} THEN r.lo - 1 ELSE SetMax(X)]
+         /\ pc' = "fin" /\ UNCHANGED c
 
 (* ------------------------------------------------------------ extend: Impl *)
 \* left_closed: start -= eps ; right_closed: stop += eps
-Start8 == 2 * c.ms - (IF c.lc THEN 1 ELSE 0)
-Stop8  == 2 * c.me + (IF c.rc THEN 1 ELSE 0)
+Start8 == 2 * O.ms - (IF O.lc THEN 1 ELSE 0)
+Stop8  == 2 * O.me + (IF O.rc THEN 1 ELSE 0)
 \* if start <= current_start - step: arange(current_start - step, start, -step)[::-1]
-ExtendLeft == /\ c.kind = "extend" /\ pc = "start"
-              /\ \E k \in ArangeLens(-8 - Start8, c.s, FALSE) : \E rel \in Rels(-8 - Start8, c.s, k) :
-                    r' = [r EXCEPT !.nl = k, !.lrel = rel]
+\* the new coordinates continue the lattice only if current_start IS the first coordinate
+ExtendLeft == /\ pc = "start" /\ O.op = "extend"
+              /\ LET num8 == (CurStart8 - 8) - Start8 IN
+                 \E k \in ArangeLens(num8, c.s, FALSE) : \E rel \in Rels(num8, c.s, k) :
+                    r' = [r EXCEPT !.nl = k, !.lrel = rel, !.bad = r.bad \/ (k > 0 /\ CurStart8 # 8 * r.lo)]
               /\ pc' = "right" /\ UNCHANGED c
 \* if stop >= current_stop: arange(coords[-1], stop, step)[1:]
-ExtendRight == /\ c.kind = "extend" /\ pc = "right"
-               /\ \E k \in ArangeLens(Stop8 - 8 * (c.n - 1), c.s, FALSE) : \E rel \in Rels(Stop8 - 8 * (c.n - 1), c.s, k) :
-                    r' = [r EXCEPT !.nr = Max(k - 1, 0), !.rrel = rel]
+ExtendRight == /\ pc = "right"
+               /\ IF Stop8 >= CurStop8
+                  THEN LET num8 == Stop8 - 8 * r.hi IN
+                       \E k \in ArangeLens(num8, c.s, FALSE) : \E rel \in Rels(num8, c.s, k) :
+                          r' = [r EXCEPT !.nr = Max(k - 1, 0), !.rrel = rel]
+                  ELSE r' = [r EXCEPT !.nr = 0]
                /\ pc' = "reindex" /\ UNCHANGED c
-Reindex == /\ c.kind \in {"extend", "width"} /\ pc = "reindex"
-           /\ r' = [r EXCEPT !.off = r.nl, !.len = c.n + r.nl + r.nr]
-           /\ pc' = "done" /\ UNCHANGED c
+\* reindex onto the new coordinates; extend_dim then records attrs start / stop on the coordinate
+Reindex == /\ pc = "reindex"
+           /\ r' = [r EXCEPT !.off = r.nl, !.len = CurLen + r.nl + r.nr, !.lo = r.lo - r.nl, !.hi = r.hi + r.nr,
+                             !.ha = IF O.op = "extend" THEN TRUE ELSE r.ha,
+                             !.at0 = IF O.op = "extend" THEN Start8 ELSE r.at0,
+                             !.at1 = IF O.op = "extend" THEN Stop8 ELSE r.at1]
+           /\ pc' = "fin" /\ UNCHANGED c
 
 (* ------------------------------------------------------------- width: Impl *)
-Same  == /\ c.kind = "width" /\ pc = "start" /\ c.w = c.n
-         /\ r' = [r EXCEPT !.len = c.n] /\ pc' = "done" /\ UNCHANGED c
-CropW == /\ c.kind = "width" /\ pc = "start" /\ c.w < c.n
-         /\ r' = [r EXCEPT !.len = c.w,
-                           !.off = CASE c.pos = "start"  -> 0
-                                     [] c.pos = "end"    -> c.n - c.w
-                                     [] c.pos = "center" -> Max(0, c.n \div 2 - c.w \div 2)]
-         /\ pc' = "done" /\ UNCHANGED c
+Same  == /\ pc = "start" /\ O.op = "width" /\ O.w = CurLen
+         /\ r' = [r EXCEPT !.len = CurLen, !.off = 0] /\ pc' = "fin" /\ UNCHANGED c
+CropW == /\ pc = "start" /\ O.op = "width" /\ O.w < CurLen
+         /\ LET off == CASE O.pos = "start"  -> 0
+                         [] O.pos = "end"    -> CurLen - O.w
+                         [] O.pos = "center" -> Max(0, CurLen \div 2 - O.w \div 2)
+            IN  r' = [r EXCEPT !.len = O.w, !.off = off, !.lo = r.lo + off, !.hi = r.lo + off + O.w - 1]
+         /\ pc' = "fin" /\ UNCHANGED c
 New(x) == IF Algo = "arange_float" THEN ArangeLens(8 * x, c.s, TRUE) ELSE {x}
-ExtendW == /\ c.kind = "width" /\ pc = "start" /\ c.w > c.n
-           /\ LET extra == c.w - c.n
-                  xl == CASE c.pos = "start" -> 0 [] c.pos = "end" -> extra [] c.pos = "center" -> extra \div 2
+ExtendW == /\ pc = "start" /\ O.op = "width" /\ O.w > CurLen
+           /\ LET extra == O.w - CurLen
+                  xl == CASE O.pos = "start" -> 0 [] O.pos = "end" -> extra [] O.pos = "center" -> extra \div 2
                   xr == extra - xl
               IN  \E kl \in New(xl), kr \in New(xr) : r' = [r EXCEPT !.nl = kl, !.nr = kr]
            /\ pc' = "reindex" /\ UNCHANGED c
 
-Next == Slice \/ ExtendLeft \/ ExtendRight \/ Reindex \/ Same \/ CropW \/ ExtendW
+\* the next operation of a history starts from the output of this one: the axis and the data, nothing else
+Finish == /\ pc = "fin"
+          /\ IF r.step < NOps /\ ~r.bad
+             THEN pc' = "start" /\ r' = [r EXCEPT !.step = r.step + 1, !.nl = 0, !.nr = 0, !.lrel = "none", !.rrel = "none"]
+             ELSE pc' = "done" /\ r' = r
+          /\ UNCHANGED c
+
+Next == Slice \/ ExtendLeft \/ ExtendRight \/ Reindex \/ Same \/ CropW \/ ExtendW \/ Finish
 Spec == Init /\ [][Next]_vars /\ WF_vars(Next)
-Export == pc = "start" => PrintT(<<"CASE", ToJson(c)>>)
+Export == (pc = "start" /\ r.step = 1) => PrintT(<<"CASE", ToJson(c)>>)
 
 (* ------------------------------------------------- Impl => Req, and laws *)
 Done == pc = "done"
+NeverOffLattice == ~r.bad                         \* no sample off the lattice, no hole, no spurious range error
 ImplCrop   == (c.kind = "crop" /\ Done) => r.set = CropIdx(c.n, c.ms, c.me, c.lc, c.rc)
 LawCropContiguous == c.kind = "crop" =>
     LET S == CropIdx(c.n, c.ms, c.me, c.lc, c.rc) IN \A x \in S, y \in S : \A z \in x..y : z \in S
@@ -133,8 +203,8 @@ LawCropClosedness == c.kind = "crop" =>       \* an end that is a coordinate is 
     LET S == CropIdx(c.n, c.ms, c.me, c.lc, c.rc) IN
     /\ (c.ms % 4 = 0 /\ c.ms < c.me) => ((c.ms \div 4) \in S <=> c.lc)
     /\ (c.me % 4 = 0 /\ c.ms < c.me) => ((c.me \div 4) \in S <=> c.rc)
-ImplExtend == (c.kind = "extend" /\ Done) => <<-r.nl, c.n - 1 + r.nr>> \in Extents(c.s, c.ms, c.me, c.lc, c.rc)
-ImplOpenEndExcluded == (c.kind = "extend" /\ Done) => r.lrel # "out" /\ r.rrel # "out"
+ImplExtend == (c.kind = "extend" /\ Done) => <<r.lo, r.hi>> \in Extents(c.s, c.ms, c.me, c.lc, c.rc)
+ImplOpenEndExcluded == (c.kind \in {"extend", "chain"} /\ Done) => r.lrel # "out" /\ r.rrel # "out"
 LawExtendContains == c.kind = "extend" =>    \* every accepted extent contains the axis and lies inside the interval (guard aside)
     \A w \in Extents(c.s, c.ms, c.me, c.lc, c.rc) :
         /\ w[1] <= 0 /\ w[2] >= c.n - 1
@@ -146,5 +216,11 @@ LawExtendIsInterval == c.kind = "extend" =>
 ImplExactlyWidth == (c.kind = "width" /\ Done) => r.len = c.w
 ImplPlacement    == (c.kind = "width" /\ Done) => r.off \in Offs(c.pos, IF r.len >= c.n THEN r.len - c.n ELSE c.n - r.len)
 LawOffs == c.kind = "width" => \A d \in 0..(2 * MaxN + 3) : \A o \in Offs(c.pos, d) : 0 <= o /\ o <= d
+\* histories: the second operation, started from the first one's output, ends on an axis Req accepts for the composition
+ImplChain == (c.kind = "chain" /\ Done) => /\ ~r.bad
+                                           /\ \E st \in Final(c) : st.lo = r.lo /\ st.hi = r.hi
+\* on dyadic steps the composition is a function; a single operation is the chain with a neutral second step
+LawChainExact == (c.kind = "chain" /\ Dyadic(c.s)) => Cardinality({<<st.lo, st.hi>> : st \in Final(c)}) = 1 \/ c.ops[2].op = "width"
+LawChainKeepsOriginals == c.kind = "chain" => \A st \in Final(c) : st.K \subseteq (st.lo..st.hi) /\ st.K \subseteq 0..(c.n - 1)
 Terminates == <>(pc = "done")
 =============================================================================
